@@ -27,7 +27,7 @@ REWRITES = {
     'R10': 'async erased: async fn -> fn, .await deleted',
     'R11': 'derive(Clone) expanded to field-wise impl with assumed clone(x)==x',
     'R13': 'enum tuple-variant constructor used as a function value is eta-expanded: f(Variant) -> f(|x| Variant(x))',
-    'R14': 'iterator-chain initialiser (`.iter().filter(..).copied().collect()`) replaced by a call to a declared function whose contract is ASSUMED (listed in evidence); only where the chain is not what the property is about',
+    'R14': 'tagged substitution written in the unit: an expression the verifier has no model for (iterator-chain initialiser, std string / number parsing call, `.into()` between string types, Vec::with_capacity) is replaced by a call to a declared function whose contract is ASSUMED and listed in the evidence (or, for vx_reserve, carries a proof obligation); the literal anchor must match exactly once, otherwise the check is inconclusive',
     'R15': 'closure body lifted verbatim into a named function whose parameter list (closure parameters + captured variables, with types) is supplied by the unit; the enclosing iterator chain is not verified',
     'R16': 'every `if C { continue; }` (or `let PAT = E else { continue; };`) that is a direct statement of a for-loop body becomes `if !(C) { <rest of the body> }` (`if let PAT = E { <rest> }`), nested for several guards (Verus for-loops do not support continue)',
     'R17': 'the k-th loop of a function lifted verbatim into a named function whose parameter list (the variables the loop reads, and `&mut` for collections it pushes to) the unit supplies; the code before and after the loop is not verified; variant: only the loop body (one iteration), with mutable locals it assigns passed in and returned; variant: one top-level statement of the function (e.g. a `match`) lifted the same way',
